@@ -115,6 +115,26 @@ def cases(seed, tier):
                    ("GET", b"/" + b"/".join(lits[:-1] + [b"other"]))]
         r.shuffle(regs)
         yield regs, qs
+    # many parameters per pattern (1 to 9 `:name` segments) with sibling candidates that bind as many and are rejected only at their
+    # LAST segment, or match with a lower rank: whatever holds the bindings (inline slots, spill-over storage, a scratch set that is
+    # swapped with the best one) must end up with exactly the winner's
+    for _ in range(12 if tier == "quick" else 400):
+        regs, qs = [], []
+        m = r.choice(["GET", "POST", "PURGE"])
+        for npar in (1, 2, 3, 4, 5, 6, 8, 9):
+            names = [b":p%d" % i for i in range(npar)]
+            alt = [b":q%d" % i for i in range(npar)]
+            pre = b"/n%d" % npar
+            regs.append((m, pre + b"/" + b"/".join(alt) + b"/zz"))            # binds npar values, rejected at the last segment
+            regs.append((m, pre + b"/" + b"/".join(alt[:-1] + [b"*"])))         # matches with npar-1 bindings, lower rank than …
+            regs.append((m, pre + b"/" + b"/".join(names)))                     # … the all-parameter pattern
+            regs.append((m, pre + b"/" + b"/".join(alt) + b"/**"))             # longer candidate
+            vals = [bytes([97 + i]) * (1 + i % 3) for i in range(npar)]
+            qs += [(m, pre + b"/" + b"/".join(vals)), (m, pre + b"/" + b"/".join(vals) + b"/zz"), (m, pre + b"/" + b"/".join(vals) + b"/yy"),
+                   (m, pre + b"/" + b"/".join(vals[:-1]))]
+        if r.random() < 0.7:
+            r.shuffle(regs)
+        yield regs, qs
     # the same table under custom methods that differ only in letter case: separate methods
     for _ in range(6 if tier == "quick" else 200):
         pats = [gen_pattern(r) for _ in range(4)]
